@@ -4,9 +4,9 @@ CONSTANTS
   MaxU = 2147483647
   MaxS = 2147483647
   Promote = TRUE
-  MaxDepth = 6
+  MaxDepth = 40
   MinSize = 10
-  Sample = 499
+  Sample = 1499
 VIEW View
 INVARIANTS InvOIUsd InvOITokens InvCollateral InvRemoved InvEmit
 CHECK_DEADLOCK FALSE
